@@ -83,12 +83,15 @@ def thermo_part(ctx):
     from .. import thermo_drv as TD
     for system, alpha in (("alzr", TD.binary_alphabet()), ("nicral", TD.ternary_alphabet()), ("fecrni", TD.two_phase_alphabet())):
         searches = TD.search_alphabet() if system == "nicral" else []
-        memo = TD.memo_answers(system, alpha + searches)
+        under = TD.undersaturated_df_alphabet() if system == "nicral" else []
+        memo = TD.memo_answers(system, alpha + searches + under)
         alpha = TD.stable_alphabet(alpha, memo)
         hist = TD.gen_histories(ctx.rng, alpha, ctx.tier)
         if system == "nicral":
             # undersaturated compositions with a search direction (what the precipitation model does during dissolution) between stable queries
             hist = hist + TD.search_histories(alpha, [q for q in searches if memo[q] is not None])
+            # driving force below the solvus (tangent point collapses, fall-back to sampling) before supersaturated queries, caches kept
+            hist = hist + TD.df_order_histories(alpha, [u for u in under if memo[u] is not None and memo[u][0] is not None])
             if not any(memo[q] is not None for q in searches):
                 raise MachineryError("vacuity: no search query found a two-phase equilibrium")
             # curvature / impingement queries in the single-phase region (fall-back to the previous result) between stable queries, caches kept
